@@ -180,6 +180,34 @@ func Witnesses() []*Case {
 	add("outer3", tygen.Outer3{})
 	add("outer4", tygen.Outer4{Outer1: &tygen.Outer1{Q: 9}, T: tygen.TV{S: "t"}})
 	add("outer4-nil", tygen.Outer4{})
+	// embedding chains of depth 1..8
+	n5 := 5
+	c0 := tygen.C0{X: 1, Y: "why", Z: true}
+	c1 := tygen.C1{C0: c0, Q2: &tygen.Q2{P: -3, Q: []byte("q")}, A1: 11}
+	c2 := tygen.C2{C1: &c1, A2: "a2"}
+	c3 := tygen.C3{C2: c2, A: 7}
+	c4 := tygen.C4{C3: &c3, A4: 4.5}
+	c5 := tygen.C5{C4: c4, X: 200}
+	c6 := tygen.C6{C5: c5, A6: true, R4: tygen.R4{K: 9, L: 0.5, M: "m", N: &n5}}
+	c7 := tygen.C7{C6: &c6, Y: -7}
+	c8 := tygen.C8{C7: c7, A8: "a8"}
+	add("embchain-1", c1)
+	add("embchain-2", c2)
+	add("embchain-3", c3)
+	add("embchain-3-noq", tygen.C3{C2: tygen.C2{C1: &tygen.C1{C0: c0, A1: 1}}, A: 7})
+	add("embchain-3-nil", tygen.C3{A: 7})
+	add("embchain-4", c4)
+	add("embchain-5", c5)
+	add("embchain-6", c6)
+	add("embchain-7", c7)
+	add("embchain-8", c8)
+	add("embchain-8-nil6", tygen.C8{C7: tygen.C7{Y: 3}, A8: "z"})
+	add("embchain-8-ptr", &c8)
+	add("embchain-8-slice", []tygen.C8{c8, {}})
+	kin := tygen.KMid2{KMid: tygen.KMid{KIn: tygen.KIn{X: "tagged", W: 5}}}
+	add("embchain-conflict-tag", tygen.KOut{C3: c3, KMid2: kin})
+	add("embchain-conflict-both", tygen.KOutB{C3: c3, KMidB2: tygen.KMidB2{KMidB: tygen.KMidB{KIn2: &tygen.KIn2{X: "gone", V: 6}}}})
+	add("embchain-conflict-both-nil", tygen.KOutB{C3: c3})
 	add("embjv", tygen.EmbJV{JV: tygen.JV{A: 5}, B: 6})
 	add("embni", tygen.EmbNI{NInt: 7})
 	// inline limits
